@@ -30,6 +30,7 @@ def check(ctx, tier):
     operand_flow(ctx, tk, f)
     dtype_plumbing(ctx, tk, f)
     geometry_equality(ctx, tk)
+    safe_mode_store(ctx, tk)
     tk.purity("C04.c", [f, ctx.func(RA + "_broadcast_rows"), ctx.func("raggedshape.RaggedShape.broadcast_values"),
                          ctx.func("raggedshape.RaggedShape._raw_broadcast"), ctx.func("raggedshape.RaggedShape._broadcast_values_fast")],
               "ufunc operands are not modified", content_only=True)
@@ -38,6 +39,8 @@ def check(ctx, tier):
     bcast.column_guard(ctx, tk, "C04.f")
     coh = ctx.cached("coherence", lambda: Coherence(tk))
     report(coh, "C04.a", funcs=[f.qual, RA + "_broadcast_rows"])
+    from .. import hazards as _hz, scopes as _sc
+    _hz.generic(ctx, tk, "C04.z", _sc.scope(tk, "C04"))
     return {}
 
 
@@ -263,3 +266,25 @@ def geometry_equality(ctx, tk):
         ctx.decide("C04.h", f, what, True if full else (False if partial else None),
                    "only %s are compared: geometries differing in the last row's length (or only in lengths) compare equal, so the "
                    "different-row-lengths refusal does not fire" % sorted(cmpd), node=r.ast, engine="E6")
+
+
+def safe_mode_store(ctx, tk):
+    """the checking flag every refusal is conditional on is the constructor's parameter, on every path"""
+    f = ctx.func(RA + "__init__")
+    fa = ctx.fa(f)
+    found = False
+    for n in fa.cfg.stmts():
+        if n.kind == "stmt" and isinstance(n.ast, ast.Assign) and isinstance(n.ast.targets[0], ast.Attribute) and n.ast.targets[0].attr == "_safe_mode":
+            found = True
+            tm = fa.term(n.ast.value, n)
+            ok = all(a.k == "param" and a.a[0] == "safe_mode" for a in alts(tm))
+            forced = [a for a in alts(tm) if a.k == "const" and a.a[0] is False]
+            ctx.decide("C04.a", f, "the safe_mode flag stored on a new array is the constructor's argument (default True) on every path",
+                       True if ok else (False if forced else None),
+                       "a constructor path stores safe_mode = False regardless of the argument: every array built that way (ufunc results, astype, slices) skips the "
+                       "different-row-lengths refusal", node=n.ast, key="safe-mode-store", engine="E4")
+    if not found:
+        ctx.unknown("C04.a", f, "safe_mode flag store", engine="E4")
+    d = f.defaults.get("safe_mode")
+    ctx.decide("C04.a", f, "refusals are on by default (safe_mode defaults to True)", isinstance(d, ast.Constant) and d.value is True,
+               "default is %s" % (ast.unparse(d) if d is not None else None), key="safe-mode-default", engine="E6")
